@@ -113,6 +113,8 @@ def ensure_facts(repo=REPO, verbose=True):
             for f in EXPECTED:
                 if not os.path.exists(os.path.join(d, f)):
                     raise SystemExit("INCONCLUSIVE: facts file %s was not produced" % f)
+            with open(os.path.join(d, "REPO"), "w") as fh:
+                fh.write(os.path.realpath(repo))
             with open(os.path.join(d, "OK"), "w") as fh:
                 fh.write("%.1f" % (time.time() - t0))
             if verbose:
@@ -120,7 +122,15 @@ def ensure_facts(repo=REPO, verbose=True):
             # prune old cache entries (keep 6 most recent)
             ents = [e for e in os.listdir(CACHE) if os.path.isdir(os.path.join(CACHE, e))]
             ents.sort(key=lambda e: os.stat(os.path.join(CACHE, e)).st_mtime, reverse=True)
-            for e in ents[40:]:
+            def _is_main(e):
+                try:
+                    return open(os.path.join(CACHE, e, "REPO")).read().strip() == os.path.realpath(REPO)
+                except OSError:
+                    return False
+            # scratch copies (variant campaigns) churn quickly: keep 40 of them, and separately the 6 latest states of the real tree
+            main = [e for e in ents if _is_main(e)]
+            other = [e for e in ents if e not in main]
+            for e in main[6:] + other[40:]:
                 shutil.rmtree(os.path.join(CACHE, e), ignore_errors=True)
                 try:
                     os.remove(os.path.join(CACHE, "lock." + e))
